@@ -90,7 +90,11 @@ impl<'a> Pr<'a> {
         }
         self.out.push_str(s);
         if !self.plain && self.rng.next(12) == 0 {
-            self.out.push_str("  // note: x = y; // nested");
+            // comments with multi-byte characters: the compiler blanks comments before parsing and
+            // must keep every later location (error lines!) where it was
+            const TAILS: [&str; 4] = ["  // note: x = y; // nested", "  // Größe → λx. 日本語 😀", "  // naïve café ∀x∃y", "  // \u{2028}é"];
+            let k = self.rng.next(TAILS.len() as u32) as usize;
+            self.out.push_str(TAILS[k]);
         }
         self.nl();
     }
@@ -100,7 +104,11 @@ impl<'a> Pr<'a> {
         }
         match self.rng.next(10) {
             0 => self.nl(),
-            1 => self.emit_line(indent, "// a comment line"),
+            1 => {
+                const LINES: [&str; 3] = ["// a comment line", "// Übergang ⇒ «Zeile» 😀😀", "// ∀ ε > 0 ∃ δ — 漢字"];
+                let k = self.rng.next(LINES.len() as u32) as usize;
+                self.emit_line(indent, LINES[k]);
+            }
             _ => {}
         }
     }
